@@ -561,6 +561,8 @@ pub struct VState {
     pub flag: [bool; 4],
     /// harness bound: when set, a succeeding stub leaves at most this many tokens unread
     pub tail_bound: Option<usize>,
+    /// harness bound: stubs emit no non-fatal errors (keeps deep driver harnesses tractable)
+    pub quiet: bool,
     /// ghost: length of the inner input of a nested parse
     pub len2: usize,
     /// ghost: a log shared by every clone of this state (for sub-parsers that run on a cloned state)
@@ -579,6 +581,7 @@ impl VState {
             reg: [0; 8],
             flag: [false; 4],
             tail_bound: None,
+            quiet: false,
             len2: 0,
             ext: core::ptr::null_mut(),
         }
@@ -814,7 +817,7 @@ where
     }
     inp.cursor = newpos;
     inp.state.believed = entry_believed.wrapping_add(adv);
-    let emitted = ch::below(2);
+    let emitted = if inp.state.quiet { 0 } else { ch::below(2) };
     let base = 100 + (idslot as u16) * 10;
     if emitted >= 1 {
         inp.emit(None, Er::mk(base, entry, newpos));
